@@ -163,8 +163,7 @@ func (d *DeadlineChan[T]) Recv() (b T, err error) {
 	verifYield("DeadlineChan.Recv.polled")
 
 	if d.closed.Load() {
-		err = io.EOF
-		return
+		return d.recvBufferedOr(io.EOF)
 	}
 	verifYield("DeadlineChan.Recv.checked")
 
@@ -172,16 +171,36 @@ func (d *DeadlineChan[T]) Recv() (b T, err error) {
 	verifYield("DeadlineChan.Recv.done")
 	select {
 	case <-errChan:
-		err = d.deadline.Err()
-		return
+		return d.recvBufferedOr(d.deadline.Err())
 	default:
 		select {
 		case <-errChan:
-			err = d.deadline.Err()
-			return
+			return d.recvBufferedOr(d.deadline.Err())
 		case b = <-d.C:
 			return
 		}
+	}
+}
+
+// recvBufferedOr is the last step of a Recv that saw the queue closed or its
+// deadline expired. Data may have been queued after Recv first polled d.C and
+// before that event; it is still returned first, so that end-of-stream (or a
+// deadline error) is only reported on an empty queue.
+func (d *DeadlineChan[T]) recvBufferedOr(err error) (T, error) {
+	if d.closed.Load() {
+		// A Send that passed its closed check before Close may still be about
+		// to queue its item. Wait for it to leave (Close releases it), so that
+		// nothing can be queued after end-of-stream has been reported.
+		d.m.Lock()
+		//nolint:staticcheck // empty critical section: only waits for the in-flight Send
+		d.m.Unlock()
+	}
+	select {
+	case b := <-d.C:
+		return b, nil
+	default:
+		var zero T
+		return zero, err
 	}
 }
 
